@@ -33,7 +33,7 @@ def streams_grid(nmax):
 class C07(Prop):
     ID = "C07"
     MODULE = "AwProofs.Props.C07"
-    THEOREMS = []
+    THEOREMS = ["AwProofs.C07.earlier_events_untouched_Memory", "AwProofs.C07.earlier_events_untouched_Peewee", "AwProofs.C07.earlier_events_untouched_Sqlite", "AwProofs.C07.earlier_events_untouched_loop_Memory", "AwProofs.C07.earlier_events_untouched_loop_Peewee", "AwProofs.C07.earlier_events_untouched_loop_Sqlite", "AwProofs.C07.earlier_events_untouched_spec", "AwProofs.C07.loop_eq_reduce_Memory", "AwProofs.C07.loop_eq_reduce_Peewee", "AwProofs.C07.loop_eq_reduce_Sqlite", "AwProofs.C07.loop_eq_reduce_Sqlite_of_ends", "AwProofs.C07.loop_eq_reduce_spec", "AwProofs.C07.sqlite_before_epoch_false"]
     WORKERS = 10
     LEVEL_TEXT = "Lean 4 theorem: the ingestion loop over each backend model leaves exactly heartbeat_reduce of the stream"
     LEVEL_NOTE = "trusts: Lean kernel; backend models as validated by the C02/C04 correspondence; differential tie on streams"
